@@ -17,8 +17,8 @@ Process B (a freshly started interpreter, one per batch): loads the bytes — th
 pickle itself — and observes the copies.
 
 Observation of a bundle (identical code for original and copies), for a list of option dictionaries:
-value or failure class (+ missing key) of `root.evaluate`, sorted `keys()`, sorted `explain()`, the
-effect log when the dictionary disables the cache; then `register('late', Option('LATE'))` on every
+value or failure class (+ missing key) of `root.evaluate`, the effect log of that evaluation (what ran, what a
+user cache was asked, what was logged), `validate()`, sorted `keys()`, sorted `explain()`; then `register('late', Option('LATE'))` on every
 dataset of the bundle and evaluation again; then `root.overload('late2')(dataset(late_fn))` and
 evaluation again; plus the lookup table of every `Overloaded` object before / after the late
 registration.
@@ -32,6 +32,32 @@ Correspondence (model `LabreaModel/PickleSM.lean` through `drv_pickle`): the mod
 abstracted from the real objects, must agree on (a) whether the graph encodes and, if not, on the
 name that is not bound to the function any more, (b) the lookup tables of all `Overloaded` objects
 after the round trip and after one more `register`, and that each holds a lock again.
+
+Wrapper / combinator family (graphs `w*`, `wrappers()`; directed, every run, every protocol, its interpreters run
+beside the other batches).  A dataset builds its own `Cached` / `Logged` / `WithOptions` / `Computation` wrappers on
+the fly, so graphs made of datasets alone never contain a STORED instance of those classes.  For each of
+~70 shapes — `cached(x)` with MemoryCache / a user `Cache` subclass / NoCache (function, decorator and constructor
+form, nested, around a dataset), `Logged`, `Computation` + `ChainedEffect` / `CallbackEffect` / `LogEffect`,
+`WithOptions` / `WithDefaultOptions`, `Option` (plain, value / template / evaluatable / factory default, typed,
+container / callable / evaluatable domain, doc, dotted), `AllOptions`, members of an `Option.namespace`, `Switch` /
+`switch`, `case(...).when(...).otherwise(...)`, `coalesce`, `Overloaded`, `Template`, `Iter`, `evaluatable_list/
+tuple/set/dict`, `Map`, `FunctionApplication(.lift)`, `PartialApplication(.lift)`, `pipeline_step`, `PipelineStep`,
+`Pipeline`, `apply` / `>>` / `bind`, `Value`, explicit datasets and derivatives, a registered abstract dataset, a
+`@datasetclass`, `@interface` members with `@implements` / `.implementation` — two graphs are pickled: the node on
+its own (next to `node.apply(w_show)`, through which it is observed) and the node stored inside one explicit-form
+dataset as argument default, template parameter, switch branch, coalesce member, Iter member, inside
+`WithOptions` / `cached` / `Logged` and as a registered overload implementation.  The dictionaries repeat one
+dictionary, so a cached node is seen computing first and being served from its cache next (the effect log records
+the function running and every get / set of the user cache), and one dictionary is evaluated before pickling, so a
+memo travels.  Same oracle as for every other graph.
+`coverage.node_class_coverage` in the evidence lists every class defined in a labrea module with the number of
+pickled graphs whose live object graph contains an instance (walked in the pickling process), so a class nobody
+pickles shows up with 0.
+Library nodes that do not survive on their own on the unchanged code are treated like the unpicklable callback
+helpers (checked per run, graphs using them are outside "picklable parts", listed under
+`coverage.unpicklable_library_nodes`): an `Option.namespace` object (RecursionError in `pickle.loads`),
+`Map(...).values` (local lambda), `@interface` members declared by annotation, by an Evaluatable default or by a
+function in the class body (PicklingError; the last one by the mechanism of F12).
 
 "Picklable parts" (precise meaning used by the sweep): every callable handed to labrea is a
 module-level `def` of the generated module (or a builtin), every option value / default / pre-set
@@ -58,6 +84,7 @@ import subprocess
 import tempfile
 import time
 from collections import Counter
+from concurrent.futures import ThreadPoolExecutor
 from typing import Any, Dict, List, Optional, Tuple
 
 SPEC = PropSpec(
@@ -85,6 +112,9 @@ SPEC = PropSpec(
         "user functions are deterministic; effects are observed only with the cache disabled (cache hits are "
         "value-transparent, so dropping cache entries on pickling is not a violation)",
         "known finding F12: decorator-form datasets are not picklable (decorator_form_unpicklable)",
+        "library nodes that do not pickle on their own on the unchanged code (an Option.namespace object, Map(...).values, "
+        "interface members declared by annotation / Evaluatable default / function in the class body) are outside "
+        "'picklable parts': probed on every run and listed in coverage.unpicklable_library_nodes, not judged",
     ],
 )
 
@@ -279,6 +309,68 @@ def tables(root):
     return ";".join(out)
 
 
+def class_label(x):
+    """name of the labrea class `x` is an instance of (user subclasses: named after their labrea base)"""
+    t = type(x)
+    m = getattr(t, "__module__", "") or ""
+    if m == "labrea" or m.startswith("labrea."):
+        return m + "." + t.__qualname__
+    mixins = ("Evaluatable", "Cacheable", "Explainable", "Validatable", "Transformation")
+    best = None
+    for b in t.__mro__[1:]:
+        bm = getattr(b, "__module__", "") or ""
+        if bm.startswith("labrea."):
+            if b.__qualname__ not in mixins:
+                return "user subclass of " + bm + "." + b.__qualname__
+            best = best or ("user subclass of " + bm + "." + b.__qualname__)
+    return best
+
+
+def node_classes(bundle):
+    """which labrea classes have an instance inside the pickled bundle (walk of the live object graph):
+    {class: [objects, is a top-level item of the bundle, reachable from a Dataset of the bundle]}"""
+    from labrea.dataset import Dataset
+    out = {}
+    walk(bundle)
+    for x in list(walk.last_objects):
+        lb = class_label(x)
+        if lb:
+            out.setdefault(lb, [0, 0, 0])[0] += 1
+    for item in bundle:
+        lb = class_label(item)
+        if lb:
+            out.setdefault(lb, [0, 0, 0])[1] = 1
+    for item in bundle:
+        if isinstance(item, Dataset):
+            walk(item)
+            for x in list(walk.last_objects)[1:]:
+                lb = class_label(x)
+                if lb:
+                    out.setdefault(lb, [0, 0, 0])[2] = 1
+    return out
+
+
+def universe():
+    """every class defined in a labrea module except exceptions, enums, runtime requests and protocols"""
+    import pkgutil, inspect, labrea
+    from labrea.runtime import Request
+    out = {}
+    for mi in pkgutil.iter_modules(labrea.__path__):
+        if mi.ispkg:
+            continue
+        try:
+            m = importlib.import_module("labrea." + mi.name)
+        except Exception:
+            continue
+        for c in list(vars(m).values()):
+            if not isinstance(c, type) or c.__module__ != m.__name__:
+                continue
+            if issubclass(c, (BaseException, enum.Enum, Request)) or getattr(c, "_is_protocol", False):
+                continue
+            out[m.__name__ + "." + c.__qualname__] = "abstract" if inspect.isabstract(c) else "concrete"
+    return out
+
+
 def canon(v):
     if v is None or isinstance(v, (bool, int, str)):
         return v
@@ -327,6 +419,11 @@ def obs_one(ds, o, mod):
         # effects that ran during this evaluation: with caching off always the full list; with caching on it shows
         # whether the evaluation was served from the memo that travelled with the pickled graph
         res["fx"] = canon(list(log))
+    try:
+        ds.validate(json.loads(json.dumps(o)))
+        res["va"] = "ok"
+    except Exception as e:
+        res["va"] = failure(e)
     try:
         res["ks"] = sorted(ds.keys(json.loads(json.dumps(o))))
     except Exception as e:
@@ -390,7 +487,7 @@ def main_a(specfile, picklefile):
     protos = spec["protocols"]
     results, blobs = {}, {}
     # which library parts pickle on their own (precondition "picklable parts")
-    parts = {}
+    parts, part_errors = {}, {}
     for name, obj in getattr(mod, "PARTS", {}).items():
         try:
             if obj is None:
@@ -399,6 +496,7 @@ def main_a(specfile, picklefile):
             parts[name] = True
         except Exception as e:
             parts[name] = False
+            part_errors[name] = type(e).__name__ + ": " + norm(str(e))[:200]
     for g in spec["graphs"]:
         gid = g["gid"]
         res = {"gid": gid, "dump_err": {}, "load_err": {}, "inproc": {}}
@@ -424,11 +522,19 @@ def main_a(specfile, picklefile):
             res["heap"] = heap_line(bundle)
         except Exception as e:
             res["heap_err"] = [type(e).__name__, norm(str(e))]
+        try:
+            res["classes"] = node_classes(bundle)
+        except Exception as e:
+            res["classes_err"] = [type(e).__name__, norm(str(e))]
     tmp = picklefile + ".tmp"
     with open(tmp, "wb") as f:
         pickle.dump(blobs, f)
     os.replace(tmp, picklefile)
-    print(json.dumps({"parts": parts}))
+    try:
+        uni = universe()
+    except Exception as e:
+        uni = {"!": type(e).__name__ + ": " + norm(str(e))}
+    print(json.dumps({"parts": parts, "part_errors": part_errors, "universe": uni}))
     for g in spec["graphs"]:
         gid = g["gid"]
         res = results[gid]
@@ -522,8 +628,162 @@ def late_fn(z=Option("LATE2", "z")):
     return ["late_fn", z]
 
 
+# ---- shared by the wrapper / combinator family (graphs w*): module-level, importable helpers
+import json
+import logging as _logging
+import types as _types
+from typing import List, Optional
+from labrea import (AllOptions, Coalesce, Iter, Map, Overloaded, Switch, Template, WithDefaultOptions, WithOptions,
+                    cached, case, coalesce, datasetclass, evaluatable_dict, evaluatable_list, evaluatable_set,
+                    evaluatable_tuple, implements, interface, switch)
+from labrea.application import FunctionApplication, PartialApplication
+from labrea.cache import Cache, Cached, CacheGetFailure
+from labrea.computation import ChainedEffect, Computation
+from labrea.logging import LogEffect, Logged
+from labrea.pipeline import Pipeline, PipelineStep
+from labrea.types import Apply, Bind
+
+
+class _WLogHandler(_logging.Handler):
+    def emit(self, record):
+        EFFECT_LOG.append(["log", record.levelno, record.getMessage()])
+
+
+_wlog = _logging.getLogger("verif.c20")
+_wlog.setLevel(_logging.DEBUG)
+_wlog.propagate = False
+if not any(isinstance(_h, _WLogHandler) for _h in _wlog.handlers):
+    _wlog.addHandler(_WLogHandler())
+
+
+class WDictCache(Cache):
+    """a user cache: entries live in the instance (so they travel with the pickle), every hit / store is logged"""
+
+    def __init__(self, name):
+        self.name = name
+        self.store = {}
+
+    def get(self, evaluatable, options):
+        k = evaluatable.fingerprint(options)
+        if k not in self.store:
+            raise CacheGetFailure(evaluatable, options, self)
+        EFFECT_LOG.append(["cache_get", self.name])
+        return self.store[k]
+
+    def set(self, evaluatable, options, value):
+        EFFECT_LOG.append(["cache_set", self.name])
+        self.store[evaluatable.fingerprint(options)] = value
+
+
+def w_src(a=Option("A"), b=Option("B", 3)):
+    EFFECT_LOG.append(["ran", "w_src", a, b])
+    return ["w_src", a, b]
+
+
+def w_one(a=Option("A")):
+    EFFECT_LOG.append(["ran", "w_one", a])
+    return ["w_one", a]
+
+
+def w_alt(c=Option("C", 0)):
+    EFFECT_LOG.append(["ran", "w_alt", c])
+    return ["w_alt", c]
+
+
+def w_nothing():
+    raise NotImplementedError("abstract")
+
+
+def w_step(x, y=Option("Y", 2)):
+    return ["w_step", y, x]
+
+
+def w_wrap(x):
+    return ["w_wrap", x]
+
+
+def w_small(x):
+    return isinstance(x, int) and not isinstance(x, bool) and x < 2
+
+
+def w_is_str(x):
+    return isinstance(x, str)
+
+
+def w_less(x, than=0):
+    return x < than
+
+
+def w_pick(x):
+    return Option("B", 3) if w_small(x) else Option("C", 0)
+
+
+def w_eleven():
+    return 11
+
+
+def w_show(x):
+    """a comparable picture of whatever a node evaluates to (iterators, callables, instances of dataset classes)"""
+    if x is None or isinstance(x, (str, int, float, bool)):
+        return x
+    if isinstance(x, (list, tuple)):
+        return [w_show(i) for i in x]
+    if isinstance(x, dict):
+        return {str(k): w_show(v) for k, v in x.items()}
+    if isinstance(x, (set, frozenset)):
+        return sorted(repr(w_show(i)) for i in x)
+    if isinstance(x, type):
+        return "class:" + x.__name__
+    if hasattr(x, "__next__"):
+        return ["iterator"] + [w_show(i) for i in x]
+    if callable(x):
+        try:
+            return ["callable", w_show(x(1))]
+        except Exception as e:
+            return ["callable-raises", type(e).__name__]
+    if hasattr(x, "__dict__"):
+        return [type(x).__name__, {k: w_show(v) for k, v in sorted(vars(x).items())}]
+    return "<%s>" % type(x).__name__
+
+
+def w_flat(x):
+    """text without braces (a template parameter holding braces would be read as template keys again)"""
+    return json.dumps(w_show(x), sort_keys=True).replace("{", "(").replace("}", ")")
+
+
+def _w_namespace():
+    @Option.namespace("WNS")
+    class _WNS:
+        A: int
+        B = 3
+        C = Option.auto(default=4, doc="auto") >> w_wrap
+
+        class SUB:
+            X = "x-{WNS.A}"
+    return _WNS
+
+
+try:
+    @interface("K")
+    class W_IF_PROBE:
+        m: int
+
+        def n(a=Option("A")):
+            return ["n", a]
+        p = Option("C", 0)
+except Exception:
+    W_IF_PROBE = None
+
+
 PARTS = {}
 for _name, _mk in [
+    # library nodes that do not pickle on their own on the unchanged code: outside "picklable parts", listed in the
+    # evidence (coverage.picklable_parts / unpicklable_library_nodes) instead of being judged
+    ("namespace", _w_namespace),
+    ("interface_annotated_member", lambda: W_IF_PROBE.m),
+    ("interface_default_member", lambda: W_IF_PROBE.p),
+    ("interface_function_member", lambda: W_IF_PROBE.n),
+    ("map_values", lambda: Map(FunctionApplication.lift(w_src), {"A": [1, 2]}).values),
     ("cb_wrap", lambda: cb_wrap),
     ("map_wrap_list", lambda: F.map(cb_wrap) + list),
     ("ps_tag", lambda: ps_tag),
@@ -596,7 +856,10 @@ def node_src(n: Dict[str, Any]) -> List[str]:
     name, kind = n["name"], n["kind"]
     out: List[str] = []
     kw = n.get("kw", {})
-    if kind == "deriv":
+    if kind == "expr":
+        # wrapper / combinator family: the node is defined by literal module-level source lines
+        out.extend(n["lines"])
+    elif kind == "deriv":
         out.append(f"{name} = {n['base']}.{n['how']}({n['opts']!r})")
     elif kind == "evalds":
         k = kw_src(kw)
@@ -658,7 +921,7 @@ def module_src(graphs: List[Dict[str, Any]]) -> str:
         for n in g["nodes"]:
             lines.extend("    " + l for l in node_src(n))
             lines.append("")
-        lines.append(f"    GRAPHS[{g['gid']!r}] = [" + ", ".join(n["name"] for n in g["nodes"]) + "]")
+        lines.append(f"    GRAPHS[{g['gid']!r}] = [" + ", ".join(g.get("bundle") or [n["name"] for n in g["nodes"]]) + "]")
         lines.append("except Exception as _e:   # construction itself fails: not a pickling matter")
         lines.append(f"    GRAPH_ERRORS[{g['gid']!r}] = type(_e).__name__ + ': ' + str(_e)")
         lines.append("")
@@ -815,6 +1078,190 @@ def corpus(prefix: str = "c") -> List[Dict[str, Any]]:
     return gs
 
 
+# ---------------------------------------------------------------------------------------------
+# directed family: every public wrapper / combinator node class as a STORED node of the pickled graph
+# ---------------------------------------------------------------------------------------------
+# (shape, source, parts it needs).  `$` is replaced by the graph's name prefix.  A one-line source is the
+# expression bound to `$X`; a multi-line source must bind `$X` itself.  Everything it mentions is a module-level
+# helper of the generated module (w_*), so the node is made of picklable parts only.
+LIFT = "FunctionApplication.lift(w_src)"
+WRAPPER_SHAPES: List[Tuple[str, str, List[str]]] = [
+    # labrea.cached / Cached with each kind of cache
+    ("cached_memorycache", f"cached({LIFT})", []),
+    ("cached_user_cache", f"cached({LIFT}, WDictCache('u'))", []),
+    ("cached_nocache", f"cached({LIFT}, NoCache())", []),
+    ("cached_decorator_user_cache", "cached(WDictCache('v'))(FunctionApplication.lift(w_one))", []),
+    ("Cached_constructor", "Cached(Option('A'), MemoryCache())", []),
+    ("cached_dataset", "cached(dataset(w_one), WDictCache('ds'))", []),
+    ("cached_nested", f"cached(cached({LIFT}, WDictCache('inner')), MemoryCache())", []),
+    # logging
+    ("logged_before", f"Logged({LIFT}, 20, 'verif.c20', 'before w_src')", []),
+    ("logged_after", "Logged(Option('A'), 30, 'verif.c20', 'after A', log_first=False)", []),
+    ("computation_effects", f"Computation({LIFT}, ChainedEffect(CallbackEffect(eff_log), "
+                            "LogEffect(20, 'verif.c20', 'effect ran')))", []),
+    # options
+    ("with_options", f"WithOptions({LIFT}, {{'A': 7, 'S': {{'Y': 1}}}})", []),
+    ("with_default_options", f"WithDefaultOptions({LIFT}, {{'A': 7, 'B': 8}})", []),
+    ("option_plain", "Option('A')", []),
+    ("option_default_value", "Option('A', [1, {'k': 2}])", []),
+    ("option_default_template", "Option('A', '{B}-x')", []),
+    ("option_default_evaluatable", "Option('A', FunctionApplication.lift(w_alt))", []),
+    ("option_default_factory", "Option('A', default_factory=w_eleven)", []),
+    ("option_typed_getitem", "Option[int]('A')", []),
+    ("option_typed_generic", "Option('A', 0, type=List[int])", []),
+    ("option_domain_container", "Option('A', domain=[1, 2, 's'])", []),
+    ("option_domain_callable", "Option('A', 1, domain=w_small)", []),
+    ("option_domain_evaluatable", "Option('A', domain=Option('AS', [1, 2]))", []),
+    ("option_doc_dotted", "Option('S.Y', 4, doc='nested key')", []),
+    ("all_options", "AllOptions", []),
+    ("namespace_member_annotated", "$NS = _w_namespace()\n$X = $NS.A", []),
+    ("namespace_member_default", "$NS = _w_namespace()\n$X = $NS.B", []),
+    ("namespace_member_auto", "$NS = _w_namespace()\n$X = $NS.C", []),
+    ("namespace_member_nested", "$NS = _w_namespace()\n$X = $NS.SUB.X", []),
+    ("namespace", "$X = _w_namespace()", ["namespace"]),
+    # conditionals
+    ("switch_default", f"Switch('K', {{'one': {LIFT}, 'two': Option('C'), 1: 5}}, Option('B', 3))", []),
+    ("switch_no_default", "switch(Option('K', 'one'), {'one': Option('A'), 'two': FunctionApplication.lift(w_alt)})", []),
+    ("case_otherwise", "case(Option('A')).when(w_small, FunctionApplication.lift(w_alt)).when(w_is_str, 'str')"
+                       ".otherwise(Option('B', 3))", []),
+    ("case_no_default", "case(Option('A', 0)).when(w_small, Option('C', 0))", []),
+    ("case_evaluatable_condition", "case(Option('A')).when(PartialApplication(w_less, than=Option('B', 3)), 'lt')"
+                                   ".otherwise('ge')", []),
+    ("coalesce", "coalesce(Option('A'), Option('ZZ'), FunctionApplication.lift(w_alt))", []),
+    ("overloaded", f"Overloaded(Option('K', 'one'), {{'one': {LIFT}, 'two': Option('C')}}, Option('B', 3))", []),
+    ("overloaded_no_default", "Overloaded(Option('M'), {'two': Option('A')})", []),
+    # templates, collections, iteration
+    ("template_parameter", "Template('{S.Y}/{:x:}', x=FunctionApplication.lift(w_alt).apply(w_flat))", []),
+    ("template_constant_parameter", "Template('{B}+{:n:}', n=5)", []),
+    ("iter", f"Iter(Option('A'), Option('B', 3), {LIFT})", []),
+    ("evaluatable_list", "evaluatable_list(Option('A'), FunctionApplication.lift(w_alt))", []),
+    ("evaluatable_tuple", "evaluatable_tuple(Option('A'), Option('B', 3))", []),
+    ("evaluatable_set", "evaluatable_set(Option('A'), Option('B', 3))", []),
+    ("evaluatable_dict", "evaluatable_dict({'a': Option('A'), 'alt': FunctionApplication.lift(w_alt)})", []),
+    ("map", f"Map({LIFT}, {{'A': Option('AS', [1, 2]), 'B': [5, 6]}})", []),
+    ("map_values", f"Map({LIFT}, {{'A': [1, 2]}}).values", ["map_values"]),
+    # function application, pipelines
+    ("lift", LIFT, []),
+    ("lift_keyword_defaults", "FunctionApplication.lift(w_src, a=Option('C', 1))", []),
+    ("function_application_positional", "FunctionApplication(w_step, Option('A'), y=Option('B', 3))", []),
+    ("function_application_of_partial", "FunctionApplication(PartialApplication(w_step, y=Option('Y', 2)), Option('A'))", []),
+    ("partial_lift", "PartialApplication.lift(w_step)", []),
+    ("partial_constructor", "PartialApplication(w_step, y=Option('B', 3))", []),
+    ("pipeline_step", "pipeline_step(w_step)", []),
+    ("pipeline_step_constructor", "PipelineStep(Value(w_wrap), 'wrap')", []),
+    ("pipeline", "pipeline_step(w_step) + w_wrap + pipeline_step(w_step)", []),
+    ("pipeline_empty", "Pipeline()", []),
+    ("apply", "Option('A').apply(w_wrap)", []),
+    ("rshift_pipeline", "Option('A') >> (pipeline_step(w_step) + w_wrap)", []),
+    ("bind", "Option('A').bind(w_pick)", []),
+    ("value", "Value([1, {'k': (2, 3)}])", []),
+    # datasets, dataset classes, interfaces
+    ("dataset_explicit", "dataset(w_src)", []),
+    ("dataset_derivative", "dataset(w_src).with_options({'A': 7})", []),
+    ("dataset_callback_pipeline", "dataset(w_one, callback=pipeline_step(w_step) + w_wrap, effects=[eff_log])", []),
+    ("abstractdataset_registered", "$X = abstractdataset(w_nothing, dispatch='K')\n$X.register('one', " + LIFT + ")", []),
+    ("datasetclass", "@datasetclass\nclass $X:\n    a: int = Option('A')\n    alt: list = FunctionApplication.lift(w_alt)\n"
+                     "    k: int = 5", []),
+    ("interface_member", "@interface('K')\nclass $IF:\n    m = dataset(w_one)\n    n = abstractdataset(w_nothing)\n"
+                         "@$IF.implementation('one')\nclass $IMPL:\n    m = FunctionApplication.lift(w_alt)\n"
+                         "    n = Option('B', 3)\n$X = $IF.m\n$Y = $IF.n", []),
+    ("interface_implements_two", "@interface('K')\nclass $IF:\n    m = dataset(w_one)\n@interface(Option('M', 'two'))\n"
+                                 "class $IG:\n    m = abstractdataset(w_nothing)\n"
+                                 "@implements($IF, $IG, alias=['one', 'two'])\nclass $IMPL:\n"
+                                 f"    m = cached({LIFT})\n$X = $IG.m\n$Y = $IF.m", []),
+    ("interface_annotated_member", "@interface('K')\nclass $IF:\n    m: int\n@$IF.implementation('one')\nclass $IMPL:\n"
+                                   "    m = Option('B', 3)\n$X = $IF.m", ["interface_annotated_member"]),
+    ("interface_default_member", "@interface('K')\nclass $IF:\n    p = Option('C', 0)\n$X = $IF.p",
+     ["interface_default_member"]),
+    ("interface_function_member", "@interface('K')\nclass $IF:\n    def n(a=Option('A')):\n        return ['n', a]\n"
+                                  "$X = $IF.n", ["interface_function_member"]),
+]
+# extra top-level items of the bundle (objects that are pickled beside the node: classes go by reference)
+WRAPPER_EXTRA = {"interface_member": ["$IF", "$IMPL", "$Y"], "interface_implements_two": ["$IF", "$IG", "$IMPL", "$Y"],
+                 "interface_annotated_member": ["$IF", "$IMPL"], "interface_default_member": ["$IF"],
+                 "interface_function_member": ["$IF"]}
+
+
+# parts of the library itself that do not pickle on their own on the unchanged code (checked per run like the
+# callback helpers; a graph using one is outside "picklable parts"): reported in the evidence, not judged
+LIBRARY_PARTS = {
+    "namespace": "@Option.namespace('WNS') class N: A: int  ->  pickle.loads(pickle.dumps(N)) raises RecursionError "
+                 "(Namespace.__getattr__ reads self._members before __init__ ran)",
+    "map_values": "pickle.dumps(Map(FunctionApplication.lift(f), {'A': [1, 2]}).values) fails: Map.values applies a "
+                  "local lambda",
+    "interface_annotated_member": "@interface('K') class I: m: int  ->  pickle.dumps(I.m) raises PicklingError "
+                                  "(attribute lookup I.m on labrea.interface failed)",
+    "interface_default_member": "@interface('K') class I: p = Option('C', 0)  ->  pickle.dumps(I.p) raises "
+                                "PicklingError (attribute lookup I.p on labrea.interface failed)",
+    "interface_function_member": "@interface('K') class I: def n(a=Option('A')): ...  ->  pickle.dumps(I.n) raises "
+                                 "PicklingError (not the same object as <module>.I.n; same mechanism as F12)",
+}
+# classes of labrea that are never a stored node of a dataset graph
+NOT_STORED = {
+    "labrea.arguments.Arguments": "created per evaluation (the value of EvaluatableArguments)",
+    "labrea.conditional._DependsOn": "created per evaluation by Switch / CaseWhen",
+    "labrea.datasetclass._DatasetClassMixin": "base of the values a dataset class evaluates to",
+    "labrea.dataset.DatasetFactory": "the `dataset` / `abstractdataset` decorator objects",
+    "labrea.runtime.Runtime": "handler context, not a node",
+    "labrea.option._Auto": "placeholder inside a Namespace (which cannot be unpickled: unpicklable_library_nodes)",
+}
+
+
+def wrapper_optdicts() -> List[Dict[str, Any]]:
+    """the same dictionary twice in a row: the first evaluation computes (or is served from the memo that travelled
+    with the pickle when the graph was warmed), the second is served from the node's cache"""
+    full = {"A": 1, "B": 2, "C": 4, "S": {"X": "one", "Y": 9}, "K": "one", "M": "two", "Y": 5, "AS": [1, 2],
+            "WNS": {"A": 6, "SUB": {}}}
+    other = dict(full, A=2, K="two", M="three", WNS={"A": 7, "B": 8, "C": 9, "SUB": {"X": "y"}})
+    nok = {k: v for k, v in full.items() if k not in ("K", "M")}
+    off = dict(full, LABREA={"CACHE": {"DISABLED": True}})
+    quiet = dict(full, A="s", LABREA={"LOGGING": {"DISABLED": True}, "EFFECTS": {"DISABLED": True}})
+    return [full, full, {}, other, nok, off, quiet, dict(full, A=3, K=1)]
+
+
+def wrappers(prefix: str = "w") -> List[Dict[str, Any]]:
+    """for every shape two graphs: (alone) the node pickled directly, next to `node.apply(w_show)` through which it is
+    observed — evaluated once on the 4th dictionary before pickling, so that one memo entry travels while the first
+    two (equal) dictionaries show compute-then-hit; (stored) one explicit-form dataset (no cache of its own, so the
+    caches of the nodes inside it stay visible) holding the same node as an argument default, as a template parameter,
+    a switch branch, a coalesce member, an Iter member, inside WithOptions / cached / Logged wrappers and as a registered
+    overload implementation (selected by the 4th dictionary) — warmed on the 1st dictionary before pickling (what
+    `cached` stores there is `node.apply(w_show)`: plain data, so that the memo itself is a picklable value)."""
+    gs: List[Dict[str, Any]] = []
+    od = wrapper_optdicts()
+    for shape, src, uses in WRAPPER_SHAPES:
+        for placement in ("alone", "stored"):
+            gid = f"{prefix}{len(gs)}"
+            pre = gid + "_"
+            x = pre + "X"
+            lines = (src if "\n" in src else "$X = " + src).replace("$", pre).split("\n")
+            first = {"name": x, "kind": "expr", "form": "explicit", "lines": lines, "uses": uses, "shape": shape}
+            extra = [e.replace("$", pre) for e in WRAPPER_EXTRA.get(shape, [])]
+            if placement == "alone":
+                root = {"name": pre + "R", "kind": "expr", "form": "explicit", "lines": [f"{pre}R = {x}.apply(w_show)"]}
+                bundle, warm = extra + [x, pre + "R"], [3]
+            else:
+                d = pre + "D"
+                root = {"name": d, "kind": "expr", "form": "explicit", "lines": [
+                    f"def {d}_fn(x={x}, t=Template('{{B}}:{{:x:}}', x={x}.apply(w_flat)), "
+                    f"s=Switch('K', {{'one': {x}}}, Option('C', 0)), c=coalesce(Option('ZZ'), {x}), "
+                    f"i=Iter({x}, Option('C', 0)), w=WithOptions({x}, {{'C': 9}}), k=cached({x}.apply(w_show)), "
+                    f"l=Logged({x}, 20, 'verif.c20', 'stored')):",
+                    f"    EFFECT_LOG.append(['ran', 'D'])",
+                    f"    return ['D', w_show(x), t, w_show(s), w_show(c), w_show(i), w_show(w), w_show(k), w_show(l)]",
+                    f"{d} = dataset.nocache({d}_fn, dispatch=Option('M', 'none'), callback=w_show)",
+                    f"{d}.register('three', {x})",
+                ]}
+                bundle, warm = [d], [0]
+            g = finish_graph(gid, [first, root], od, warm, f"{shape} / {placement}")
+            g["bundle"] = bundle
+            # late registration / late overload matter for the datasets of the corpus; one dictionary each is enough here
+            g["optdicts2"], g["optdicts3"] = g["optdicts2"][:1], g["optdicts3"][:1]
+            g["shape"], g["placement"] = shape, placement
+            gs.append(g)
+    return gs
+
+
 OPT_KEYS = ["A", "B", "C", "S.Y"]
 VALUES = [0, 1, 2, 3, "p", [1, 2]]
 
@@ -962,7 +1409,11 @@ def run_batch(graphs: List[Dict[str, Any]], protocols: List[int], tag: str) -> D
         spec = {"module": modname, "protocols": protocols,
                 "graphs": [{k: g[k] for k in ("gid", "optdicts", "optdicts2", "optdicts3", "warm")} for g in graphs]}
         (work / "spec.json").write_text(json.dumps(spec))
-        env = dict(os.environ)
+        # a small environment for both interpreters: labrea resolves every option value through confectioner, which
+        # copies os.environ on each call, so the evaluation cost grows with the number of variables; no generated
+        # option value refers to the environment
+        keep = ("PATH", "HOME", "LANG", "TMPDIR", "TZ", "LD_LIBRARY_PATH", "VIRTUAL_ENV")
+        env = {k: v for k, v in os.environ.items() if k in keep or k.startswith(("LC_", "PYTHON", "VERIF_"))}
         env["PYTHONPATH"] = f"{REPO}{os.pathsep}{work}"
         env["PYTHONDONTWRITEBYTECODE"] = "1"
         env.pop("PYTHONHASHSEED", None)
@@ -999,6 +1450,8 @@ def run_batch(graphs: List[Dict[str, Any]], protocols: List[int], tag: str) -> D
             d = json.loads(line)
             if "parts" in d:
                 res["parts"] = d["parts"]
+                res["part_errors"] = d.get("part_errors", {})
+                res["universe"] = d.get("universe", {})
             else:
                 res["graphs"][d["gid"]] = d
         for line in b_out.splitlines():
@@ -1162,6 +1615,7 @@ def uses_unpicklable_part(g: Dict[str, Any], parts: Dict[str, bool]) -> bool:
         kw = n.get("kw", {})
         used = ([kw["callback"]] if kw.get("callback") else []) + list(kw.get("effects", []))
         used += [p[1] for p in n.get("post", []) if p[0] == "add_effects"]
+        used += list(n.get("uses", []))
         if any(parts.get(u) is False for u in used):
             return True
     return False
@@ -1192,7 +1646,8 @@ def shrink(g: Dict[str, Any], protocols: List[int], kind: str, what: str = "", b
         names = [n["name"] for n in cur["nodes"]]
         for i, n in enumerate(cur["nodes"][:-1]):
             others = "".join(refs(m) for j, m in enumerate(cur["nodes"]) if j != i)
-            if f'"{n["name"]}"' not in others:
+            in_lines = any(n["name"] in l for j, m in enumerate(cur["nodes"]) if j != i for l in m.get("lines", []))
+            if f'"{n["name"]}"' not in others and not in_lines and n["name"] not in cur.get("bundle", []):
                 c = copy.deepcopy(cur)
                 del c["nodes"][i]
                 cands.append(c)
@@ -1257,18 +1712,40 @@ def explore(ctx: Ctx) -> Exploration:
     parts_seen: Dict[str, bool] = {}
 
     corp = corpus("c")
+    fam = wrappers("w")
     rand = [gen_graph(rng, f"r{i}", decorator=(rng.random() < 0.22)) for i in range(n_random)]
-    batches: List[Tuple[List[Dict[str, Any]], List[int], str]] = [(corp, protocols_for(ctx.tier, True), f"{ctx.seed}_c")]
+    all_protocols = protocols_for(ctx.tier, True)
+    batches: List[Tuple[List[Dict[str, Any]], List[int], str, Any]] = [(corp, all_protocols, f"{ctx.seed}_c", None)]
+    # the directed wrapper / combinator family (always, every protocol): its interpreters run beside the other
+    # batches, so the wall time of the check stays what the corpus + random batches need
+    n_chunks = 4
+    per = (len(fam) + n_chunks - 1) // n_chunks
+    pool = ThreadPoolExecutor(max_workers=n_chunks + 1)
+    for i in range(n_chunks):
+        chunk = fam[i * per:(i + 1) * per]
+        if chunk:
+            tag = f"{ctx.seed}_w{i}"
+            batches.append((chunk, all_protocols, tag, pool.submit(run_and_judge, chunk, all_protocols, tag)))
     for b in range(0, len(rand), batch_size):
-        batches.append((rand[b:b + batch_size], protocols_for(ctx.tier, False), f"{ctx.seed}_r{b // batch_size}"))
+        chunk, protos, tag = rand[b:b + batch_size], protocols_for(ctx.tier, False), f"{ctx.seed}_r{b // batch_size}"
+        # (the first random batch starts right away as well; the later ones run one after the other, within the budget)
+        batches.append((chunk, protos, tag, pool.submit(run_and_judge, chunk, protos, tag) if b == 0 else None))
+    pool.shutdown(wait=False)
 
     new_count = 0
-    for graphs, protocols, tag in batches:
-        if ctx.elapsed() > (480 if thorough else 50) and not tag.endswith("_c"):
+    class_cov: Dict[str, Dict[str, int]] = {}
+    universe: Dict[str, str] = {}
+    part_errors: Dict[str, str] = {}
+    fam_lost: List[str] = []
+    for graphs, protocols, tag, future in batches:
+        family = "corpus" if "_c" in tag else "wrappers" if "_w" in tag else "random"
+        if ctx.elapsed() > (480 if thorough else 50) and family == "random":
             dist["batches_skipped_for_time"] += 1
             continue
-        res, verdicts = run_and_judge(graphs, protocols, tag)
+        res, verdicts = future.result() if future is not None else run_and_judge(graphs, protocols, tag)
         parts_seen.update(res["parts"])
+        part_errors.update(res.get("part_errors", {}))
+        universe.update(res.get("universe", {}))
         for g in graphs:
             gid = g["gid"]
             r = res["graphs"].get(gid, {})
@@ -1276,6 +1753,8 @@ def explore(ctx: Ctx) -> Exploration:
             if "build_err" in r:
                 dist["outside_property:construction_failed"] += 1
                 build_failed += 1
+                if family == "wrappers":
+                    fam_lost.append(f"{g['note']}: {r['build_err']}")
                 continue
             if uses_unpicklable_part(g, res["parts"]):
                 # a callback / effect helper that does not pickle on its own: outside "picklable parts"
@@ -1301,6 +1780,18 @@ def explore(ctx: Ctx) -> Exploration:
                     dist["post:" + p[0]] += 1
             if g["warm"]:
                 dist["warm_cache"] += 1
+            dist["family:" + family] += 1
+            if g.get("placement"):
+                dist["wrapper_placement:" + g["placement"]] += 1
+            if not r.get("dump_err"):
+                # node classes inside what was actually pickled (walk of the live objects in process A)
+                for cls, (n_obj, top, under) in r.get("classes", {}).items():
+                    e = class_cov.setdefault(cls, {"graphs": 0, "top_level_item": 0, "inside_a_dataset": 0,
+                                                   "in_corpus": 0, "in_wrappers": 0, "in_random": 0})
+                    e["graphs"] += 1
+                    e["top_level_item"] += top
+                    e["inside_a_dataset"] += under
+                    e["in_" + family] += 1
             orig = r.get("orig")
             if orig:
                 for q in ("q1", "q2", "q3"):
@@ -1312,7 +1803,7 @@ def explore(ctx: Ctx) -> Exploration:
                                                                 + len(orig.get("q3", []))) * 3
                 if len(g["nodes"]) > 1 or any(n.get("registers") or n.get("kw") for n in g["nodes"]):
                     nontrivial.add(json.dumps(g["nodes"], sort_keys=True).replace(gid + "_", ""))
-            if len(samples) < 5 and (gid.startswith("r") and len(g["nodes"]) >= 3 or gid in ("c4", "c60")):
+            if len(samples) < 5 and (gid.startswith("r") and len(g["nodes"]) >= 3 or gid in ("c4", "c60", "w3")):
                 samples.append(f"{gid} [{'decorator' if deco else 'explicit'}] " +
                                " | ".join(l for n in g["nodes"] for l in node_src(n) if not l.startswith("    "))[:400]
                                + f"  -> model: {str(r.get('model'))[:160]}")
@@ -1330,7 +1821,7 @@ def explore(ctx: Ctx) -> Exploration:
             payload = make_payload(g, r, res["module"], protocols, what)
             payload["all_findings_on_this_graph"] = [f"{k}: {w}" for k, w in fresh_v][:12]
             if ctx.elapsed() < (400 if thorough else 40):
-                gs = shrink(g, protocols, kind, what)
+                gs = shrink(g, protocols, kind, what, budget=10 if family == "wrappers" else 24)
                 if gs is not g:
                     res2, v2 = run_and_judge([gs], protocols, f"{ctx.seed}_s{new_count}")
                     same = [(k, w) for k, w, kn in v2[gs["gid"]] if kn is None]
@@ -1351,6 +1842,23 @@ def explore(ctx: Ctx) -> Exploration:
             + what, make_payload(g, r, module, protocols, what), known_id="F12"))
     dist["f12_graphs"] = len(f12)
     dist["decorator_form_graphs"] = n_deco
+    # coverage of the library's node classes: every class defined in a labrea module, with the number of pickled
+    # graphs (dumps succeeded, graph judged) whose object graph contains an instance of it
+    table: Dict[str, Any] = {}
+    zero = {"graphs": 0, "top_level_item": 0, "inside_a_dataset": 0, "in_corpus": 0, "in_wrappers": 0, "in_random": 0}
+    for cls in sorted(set(universe) | set(class_cov)):
+        row = dict(class_cov.get(cls, zero))
+        if universe.get(cls) == "abstract":
+            row["note"] = "abstract base (instances are counted under their concrete class)"
+        elif cls in NOT_STORED:
+            row["note"] = NOT_STORED[cls]
+        table[cls] = row
+    zero_cov = [c for c, row in table.items() if row["graphs"] == 0 and universe.get(c) == "concrete"]
+    unpicklable_nodes = [{"part": k, "failure_on_its_own": part_errors.get(k, "?"), "reproducer": LIBRARY_PARTS[k]}
+                         for k in sorted(LIBRARY_PARTS) if parts_seen.get(k) is False]
+    print(f"COVERAGE property=C20 node classes with an instance in a pickled graph: "
+          f"{sum(1 for r_ in table.values() if r_['graphs'])} of {len(table)}; none in: "
+          + (", ".join(c.replace("labrea.", "") for c in zero_cov) or "-"))
     cov = {
         "evaluations": cov_cases,
         "programs": cov_cases,
@@ -1363,6 +1871,17 @@ def explore(ctx: Ctx) -> Exploration:
         "processes": "per batch: one process building/pickling/observing in-process, one freshly started interpreter "
                      "loading the bytes",
         "picklable_parts": parts_seen,
+        "node_class_coverage": {
+            "rule": "rows: every class defined in a labrea module (no exceptions / enums / runtime requests / protocols) "
+                    "plus user subclasses met; graphs = pickled graphs (all protocols dumped, graph judged) whose live "
+                    "object graph, walked in the pickling process, contains an instance; top_level_item = it is itself "
+                    "an item of the pickled bundle; inside_a_dataset = reachable from a Dataset of the bundle",
+            "table": table,
+            "zero_coverage": zero_cov,
+            "wrapper_shapes": len(WRAPPER_SHAPES),
+            "wrapper_graphs_not_constructed": fam_lost,
+        },
+        "unpicklable_library_nodes": unpicklable_nodes,
         "outside_property_skipped": skipped_parts,
         "construction_failed": build_failed,
         "samples": samples[:5],
